@@ -288,7 +288,10 @@ def check_config_case(case):
     try:
         # rename for prefix relations: n0 -> X, n1 -> Xy (X is a prefix of Xy), n2 -> Z
         base = G.MODNAME + "." + tag
-        for c, suffix in zip(g.nodes[:3], ("_X", "_Xy", "_Z")):
+        # "order": which of the three names is REGISTERED first (the registries are insertion-ordered; the rule must
+        # not depend on the longer name coming after the name it extends)
+        order = case.get("order") or [0, 1, 2]
+        for c, suffix in zip(g.nodes[:3], [("_X", "_Xy", "_Z")[j] for j in order]):
             c.__name__ = tag + suffix
             c.__qualname__ = tag + suffix
         fq = [dr.get_name(c) for c in g.nodes[:3]]
@@ -413,9 +416,11 @@ def run_unit(unit, tier):
         entries = [{"name_kind": k, "enabled": e} for k in kinds for e in (True, False, None)]
         cfgs = [[]] + [[e] for e in entries] + [[e1, e2] for e1 in entries for e2 in entries]
         for default in (None, True, False):
-            for apply_default in (False, True):
+            for apply_default, order in itertools.product((False, True), ([0, 1, 2], [1, 0, 2], [2, 1, 0])):
                 for cf in cfgs:
                     case = {"kind": "config", "default": default, "configs": cf, "apply_default": apply_default}
+                    if order != [0, 1, 2]:
+                        case["order"] = order
                     try:
                         vio = check_config_case(case)
                     except Exception as ex:
